@@ -385,6 +385,9 @@ pub enum LaneKind {
 	/// rebuild with -Cinstrument-coverage, run `<ID> quick`, and report which
 	/// lines / error sites of the files under test the workload reached
 	Coverage(&'static [&'static str]),
+	/// coverage-guided input generation (cargo-fuzz / libFuzzer + ASan) for this
+	/// many seconds; every artifact it leaves is re-judged by `pvh classify`
+	Fuzz(u64),
 }
 
 #[derive(Clone, Debug)]
@@ -444,6 +447,7 @@ pub fn run_lane(id: &str, lane: &Lane, seed: u64) -> LaneResult {
 		LaneKind::Valgrind => "valgrind-memcheck",
 		LaneKind::AsanQuick => "asan",
 		LaneKind::Coverage(_) => "llvm-cov",
+		LaneKind::Fuzz(_) => "libfuzzer+asan",
 	};
 	match lane.kind {
 		LaneKind::AsanQuick => {
@@ -486,6 +490,68 @@ pub fn run_lane(id: &str, lane: &Lane, seed: u64) -> LaneResult {
 				} else if code != Some(0) {
 					res.inconclusive.push(format!("asan lane: nested run exit {:?} (harness error), see {}", code, log.display()));
 				}
+			}
+		}
+		LaneKind::Fuzz(secs) => {
+			let secs = std::env::var("PVH_FUZZ_SECS").ok().and_then(|s| s.parse::<u64>().ok()).unwrap_or(secs);
+			let fuzz_dir = root.join("fuzz");
+			let corpus = dir.join("fuzz-corpus");
+			let artifacts = dir.join("fuzz-artifacts");
+			let _ = fs::remove_dir_all(&artifacts);
+			let _ = fs::create_dir_all(&artifacts);
+			let mut c = Command::new(std::env::current_exe().expect("exe"));
+			c.args(["dump-seeds", corpus.to_str().unwrap()]).env("VERIF_SEED", seed.to_string());
+			let _ = run_with_timeout(c, &dir.join("fuzz-seeds.log"), Duration::from_secs(600));
+			if !fuzz_dir.join("Cargo.lock").exists() {
+				let _ = fs::copy(harness_dir().join("Cargo.lock"), fuzz_dir.join("Cargo.lock"));
+			}
+			let mut c = Command::new("cargo");
+			c.args(["+nightly", "fuzz", "build", "--fuzz-dir"]).arg(&fuzz_dir).current_dir(&fuzz_dir).env("CARGO_NET_OFFLINE", "true").env("CARGO_TARGET_DIR", root.join("target").join("fuzz"));
+			let (code, _) = run_with_timeout(c, &dir.join("fuzz-build.log"), Duration::from_secs(3600));
+			if code != Some(0) {
+				res.inconclusive.push(format!("fuzz lane: build failed (exit {:?}), see {}", code, dir.join("fuzz-build.log").display()));
+			} else {
+				let jobs = std::thread::available_parallelism().map(|n| n.get()).unwrap_or(4);
+				let log = dir.join("fuzz-run.log");
+				let mut c = Command::new("cargo");
+				c.args(["+nightly", "fuzz", "run", "--fuzz-dir"]).arg(&fuzz_dir).arg("read_any").arg(&corpus).arg("--").args([&format!("-max_total_time={}", secs), "-timeout=20", &format!("-fork={}", jobs), "-max_len=70000", "-len_control=0", "-ignore_crashes=1", "-ignore_timeouts=1", "-ignore_ooms=1", "-rss_limit_mb=6144", "-malloc_limit_mb=6144"]).arg(format!("-artifact_prefix={}/", artifacts.display())).current_dir(&fuzz_dir).env("CARGO_NET_OFFLINE", "true").env("CARGO_TARGET_DIR", root.join("target").join("fuzz"));
+				let (code, timed_out) = run_with_timeout(c, &log, Duration::from_secs(secs + 1800));
+				*exit_codes.entry(format!("{:?}", code)).or_default() += 1;
+				let text = fs::read_to_string(&log).unwrap_or_default();
+				let last = text.lines().rev().find(|l| l.contains("oom/timeout/crash")).unwrap_or("").to_string();
+				if let Some(n) = last.trim_start_matches('#').split(':').next().and_then(|x| x.trim().parse::<u64>().ok()) {
+					evaluations += n;
+				}
+				if timed_out {
+					res.inconclusive.push("fuzz lane: timed out".into());
+				}
+				// every artifact is re-judged by the harness's own monitors in a child process
+				let mut arts: Vec<PathBuf> = fs::read_dir(&artifacts).map(|rd| rd.filter_map(|e| e.ok()).map(|e| e.path()).collect()).unwrap_or_default();
+				arts.sort();
+				let mut unreproduced = 0;
+				for a in arts.iter().take(40) {
+					let out = Command::new(std::env::current_exe().expect("exe")).arg("classify").arg(a).output();
+					match out {
+						Ok(o) => {
+							let t = String::from_utf8_lossy(&o.stdout).to_string();
+							let sigs: Vec<&str> = t.lines().filter_map(|l| l.strip_prefix("signature: ")).collect();
+							if let Some(sig) = o.status.signal() {
+								res.violations.push(Violation { sig: format!("lane=fuzz;process-death;signal {}", sig), detail: format!("input {} kills the process (signal {})", a.display(), sig), witness: fs::read(a).ok(), sub: None });
+							} else if !sigs.is_empty() {
+								for sg in sigs.iter().take(3) {
+									res.violations.push(Violation { sig: sg.to_string(), detail: format!("found by coverage-guided fuzzing; input {}", a.display()), witness: fs::read(a).ok(), sub: None });
+								}
+							} else {
+								unreproduced += 1;
+							}
+						}
+						Err(e) => res.inconclusive.push(format!("classify failed: {}", e)),
+					}
+				}
+				if unreproduced > 0 {
+					res.inconclusive.push(format!("fuzz lane: {} artifact(s) under {} not reproduced by the monitors (likely wall-clock timeouts/ooms of the fuzzer)", unreproduced, artifacts.display()));
+				}
+				res.json = json!({"fuzzer_status": last.trim(), "artifacts": arts.len(), "seconds": secs});
 			}
 		}
 		LaneKind::Coverage(files) => {
